@@ -124,6 +124,22 @@ Proof. intros R radd rmul rzero rone A1 A2 A3 M1 M2 M3. apply wmc_empty_clause; 
 Print Assumptions C15_wmc_empty_clause.
 
 (* ---- PartialModel / VarSet ---- *)
+(* VarSet (BitSet) as a finite set that is iterated in increasing order *)
+Theorem C15_varset_laws : forall s o v w,
+  vs_contains (vs_insert v s) w = ((w =? v) || vs_contains s w)%bool /\
+  vs_contains (vs_remove v s) w = (negb (w =? v) && vs_contains s w)%bool /\
+  vs_contains (vs_difference s o) w = (vs_contains s w && negb (vs_contains o w))%bool /\
+  vs_contains (vs_union s o) w = (vs_contains s w || vs_contains o w)%bool /\
+  (vs_wf s -> vs_wf (vs_insert v s) /\ vs_wf (vs_remove v s) /\ vs_wf (vs_difference s o) /\
+              vs_wf (vs_union s o)).
+Proof.
+  intros s o v w. split; [apply vs_contains_insert|]. split; [apply vs_contains_remove|].
+  split; [apply vs_contains_difference|]. split; [apply vs_contains_union|].
+  intros H. split; [apply vs_insert_wf, H|]. split; [apply vs_remove_wf, H|].
+  split; [apply vs_difference_wf, H|apply vs_union_wf, H].
+Qed.
+Print Assumptions C15_varset_laws.
+
 Theorem C15_partial_model_laws : forall m v b w n,
   pm_get (pm_new n) w = None /\
   pm_get (pm_set m v b) w = (if w =? v then Some b else pm_get m w) /\
